@@ -26,6 +26,8 @@ def dtfromOracles (_z : TimeZone) (_u _ns : Int) (_rhs : List String) : Verdicts
 def findOracles (_z : TimeZone) (_y _mo _d _h _mi _s _ns : Int) (_rhs : List String) : Verdicts := []
 def findnOracles (_z : TimeZone) (_n : Nat) (_f _stale : Int × Int × Int × Int × Int × Int × Int) (_rhs : List String) : Verdicts := []
 def tzifOracles (_b : List Nat) (_rhs : List String) : Verdicts := []
+def tzifgenOracles (_v : Nat) (_z : TimeZone) (_b : List Nat) (_rhs : List String) : Verdicts := []
+def tzifbadOracles (_cls : String) (_b : List Nat) (_rhs : String) : Verdicts := []
 def tzfooterOracles (_v : Nat) (_b : List Nat) (_rhs : List String) : Verdicts := []
 def resolveOracles (_dirs : List (List Nat)) (_files : List (List Nat × List Nat)) (_tz : List Nat) (_rhs : List String) : Verdicts := []
 
